@@ -173,6 +173,37 @@ def check_every_pool_ticked(ctx, num=1):
         ctx.ob(num, "K3", "every pool runs its tick in every executor tick (with or without commands for it)", ok, f, c, construct="for every pool: pool.run_one_tick(...)", detail=d)
 
 
+def check_container_ids(ctx, num=2):
+    """Results, Suspend commands and the schedulers' tables name a container by its id alone: two containers of one executor must never
+    share an id.  The id is formed in the constructor from one process-wide counter that is stepped for every container built."""
+    P = ctx.P
+    ci = P.fn(CT, "Container.__init__")
+    ctx.touch(ci)
+    g = cfg_of(ci, subst_env=False)
+    ws = [w for w in attr_writes(P, "container_id", include_mutation=False) if w.fn.cls == "Container" or (w.fn.mod.rel in (CT, RP) and norm.U(w.target).split(".")[0] in ("c", "container", "self") and w.fn.cls in ("Container", "ResourcePool"))]
+    inits = [w for w in ws if same_fn(w.fn, ci)]
+    ok = len(inits) == 1 and len(ws) == 1
+    d = f"stores of container_id: {[repr(w) for w in ws]}"
+    if ok:
+        st = inits[0].node
+        v = st.value if isinstance(st, (ast.Assign, ast.AnnAssign)) else None
+        from ..util import single_defs
+        v2 = norm.subst(v, single_defs(ci)) if v is not None else None
+        parts = [x for x in v2.values] if isinstance(v2, ast.JoinedStr) else []
+        fv = [x for x in parts if isinstance(x, ast.FormattedValue)]
+        okform = isinstance(v2, ast.JoinedStr) and len(fv) == 1 and norm.U(fv[0].value) == "Container.next_container_num" and fv[0] is parts[-1]
+        incs = [n for n in own_nodes(ci.node) if isinstance(n, ast.AugAssign) and norm.U(n.target) == "Container.next_container_num"]
+        okinc = len(incs) == 1 and isinstance(incs[0].op, ast.Add) and isinstance(incs[0].value, ast.Constant) and incs[0].value.value == 1 \
+            and g.path_avoiding(g.entry.id, {g.exit.id}, {g.node_of(incs[0]).id}) is None and g.path_avoiding(g.entry.id, {g.exit.id}, {g.node_of(st).id}) is None \
+            and g.dominates(st, incs[0])
+        others = [w for w in attr_writes(P, "next_container_num") if not same_fn(w.fn, ci) and w.fn.qual != "<module>"]
+        ok = okform and okinc and not others
+        d = (f"id = {norm.U(v2) if v2 is not None else None} (one counter value, last in the text): {okform}; counter += 1 for every container, after the id is formed: {okinc}; "
+             f"other writers of the counter: {[repr(w) for w in others]}")
+    ctx.ob(num, "K3", "every container gets an id of its own: formed in the constructor from one process-wide counter that is stepped once per container", ok, ci,
+           inits[0].node if inits else ci.node, construct="container_id = f'c{Container.next_container_num}'; counter += 1", detail=d)
+
+
 def check_results(ctx, num=3):
     P = ctx.P
     pa = pool.pool_analysis(P)
@@ -387,9 +418,15 @@ def run(ctx):
     check_routing(ctx, 1)
     check_every_pool_ticked(ctx, 1)
     c02.check_container_factory(ctx, 2)
+    check_container_ids(ctx, 2)
     pool.ob_moves_classified(ctx, 2)
     pool.ob_deltas(ctx, 3, amounts=False, conditions=True)
     pool.ob_phases(ctx, 3)
     check_results(ctx, 3)
     check_success_iff_no_error(ctx, 5)
+    # "success exactly when every operator completed": the generator marks the container ended right after the COMPLETED transition of the
+    # last operator, and an operator is COMPLETED exactly when its tick count-down reaches 0 (C05#6/#7)
+    from . import c05
+    sh_ = c05.check_plan(Renumber(ctx, {1: 5, 2: 5, 5: 5, 6: 5, 7: 5}))
+    c05.check_tick_body(Renumber(ctx, {4: 5, 5: 5, 6: 5, 7: 5}), sh_)
     check_validation_order(ctx, 6)
